@@ -34,14 +34,16 @@ Theorem C01_accept_sound : forall src e,
 Proof. exact compile_sound. Qed.
 
 (** ... and therefore never an unbalanced bracket, a dangling operator or nothing at all: in
-    every accepted text each kind of bracket opens as often as it closes, and the last token
-    is a closing bracket, an identifier or a literal. *)
+    every accepted text each kind of bracket opens as often as it closes, the brackets are
+    properly nested (every closer matches the most recent open bracket, [nested]), and the last
+    token is a closing bracket, an identifier or a literal. *)
 Theorem C01_accepted_shape : forall src e,
   compile src = CExpr e ->
-  exists ts, lex src = Some ts /\ balanced ts /\ ends ts /\ ts <> [].
+  exists ts, lex src = Some ts /\ balanced ts /\ ends ts /\ ts <> [] /\ nested ts [] = true.
 Proof.
   intros src e H. apply compile_sound in H as (ts & L & G). exists ts. split; [exact L|].
-  now apply derivable_shape.
+  destruct (derivable_shape ts G) as (B & E & N). repeat split; try assumption; try apply B.
+  now apply derivable_nested.
 Qed.
 
 (** The position computed for a byte offset (SourceInfo::pos_for, used for macro errors)
